@@ -942,7 +942,7 @@ func (x *FnExec) frameObligation(name string, reach Term, before, after map[stri
 						for i := 0; i < stt.NumFields(); i++ {
 							if stt.Field(i).Name() == m.Name {
 								off := x.mem.FieldOffset(p.Elem(), i)
-								for j, l := range x.mem.Leaves(stt.Field(i).Type()) {
+								for j, l := range x.mem.FieldLeaves(p.Elem(), i) {
 									locs = append(locs, loc{key: l.Key, addr: Add(base.V.T, Lit(int64(off+j))), n: 1})
 								}
 							}
